@@ -146,3 +146,14 @@ LINEAR_NX = REG2.add(Contract(
     ensures={"exactly the stated residues, numbered consecutively from 1 in input order, connected linearly": "seq_chain(result, monomers)"},
     locals={"seq_graph": SEQGRAPH}, spec_fns=dict(seq_chain=seq_chain), props=("C12", "C19"),
     note="networkx calls modelled (Graph(), add_nodes_from(range), add_edges_from(zip of ranges), set_node_attributes); residue names compared only"))
+
+
+def _ps_interp(args):
+    mons = args["monomers"]
+    pre = [0]
+    for m in mons:
+        pre.append(pre[-1] + max(m["n_blocks"], 0))
+    return {"blocks_before": lambda m: pre[int(m)] if 0 <= int(m) < len(pre) else 0, "__window__": pre[-1] + 3}
+
+
+FROM_SEQ.ghost_interp = _ps_interp
